@@ -666,6 +666,28 @@ func (e *pathEnv) condOf(v ssa.Value) Cond {
 			case "bytes.Equal":
 				return Cond{"eq", e.of(x.Call.Args[0]), e.of(x.Call.Args[1])}.canon()
 			}
+			// a predicate that is new relative to the reviewed tree and ends in one `return <test>`:
+			// the test itself, in the caller's terms (a check moved into a helper keeps its form)
+			if e.isNewHelper(&x.Call) && inlineDepth <= 1 && f.Recover == nil && f.Signature.Results().Len() == 1 && isBool(f.Signature.Results().At(0).Type()) {
+				var only *ssa.Return
+				n := 0
+				for _, b := range f.Blocks {
+					if ret, ok := lastInstr(b).(*ssa.Return); ok {
+						only = ret
+						n++
+					}
+				}
+				if n == 1 && len(only.Results) == 1 {
+					if _, isC := only.Results[0].(*ssa.Const); !isC {
+						inlineDepth++
+						hc := e.prog.Env(f).condOf(only.Results[0])
+						inlineDepth--
+						if hc.Op != "T" && hc.Op != "F" {
+							return hc.Subst(e.callPath(&x.Call).Args, f.Signature.Recv() != nil)
+						}
+					}
+				}
+			}
 		}
 	}
 	return Cond{"T", e.of(v), nil}
